@@ -256,6 +256,13 @@ instance (s : St) : Decidable (Sync s) := by unfold Sync; exact inferInstance
 /-- no actor can move: no application thread, not `runAsync`, not the engine goroutine, no connection -/
 def stuck (kind : Nat → W.Full.Cmd) (caps : W.Full.Caps) (s : St) : Prop := ∀ t, step kind caps s t = none
 
+/-- a move that is not a connection stuttering: any step of an application thread, `runAsync` or the
+    engine goroutine (a tick event handled is a real `Driver.Tick`), or a connection step that takes
+    a request from the port / delivers an answer -/
+def realMove (s s' : St) : Th → Prop
+  | .env _ => s'.core.outb.length ≠ s.core.outb.length ∨ s'.ext.length ≠ s.ext.length
+  | _ => True
+
 end F
 
 end E
